@@ -455,6 +455,11 @@ class Executor(object):
         if isinstance(a, VList) and isinstance(b, VList) and isinstance(op, ast.Add):
             st, lst = self.new_list(st, list(st.get(a, "items")) + list(st.get(b, "items")))
             return [(st, "ok", lst)]
+        if isinstance(b, VT) and b.t.sort.startswith("(Seq") and isinstance(a, VList) and isinstance(op, ast.Add):
+            t = tm.seqempty(tm.elem_sort(b.t.sort))
+            for it in st.get(a, "items"):
+                t = tm.seqcat(t, tm.sequnit(self.models.as_elem(self, st, it, tm.elem_sort(b.t.sort))))
+            return [(st, "ok", VT(tm.seqcat(t, b.t) if t.op != "seq.empty" else b.t, "list"))]
         if isinstance(a, VT) and a.t.sort.startswith("(Seq") and isinstance(b, VList) and isinstance(op, ast.Add):
             t = a.t
             for it in st.get(b, "items"):
@@ -991,8 +996,10 @@ class Executor(object):
             else:
                 raise Unsupported("missing argument %s for %s" % (p, fn.qual))
         if a.vararg is not None:
-            st, lst = self.new_list(st, extra)
-            env[a.vararg.arg] = VTuple(extra)
+            if a.vararg.arg in kw_extra and not extra:
+                env[a.vararg.arg] = kw_extra.pop(a.vararg.arg)   # (verification set-up: a symbolic *args sequence)
+            else:
+                env[a.vararg.arg] = VTuple(extra)
         if a.kwarg is not None:
             st, d = self.new_dict(st, kw_extra)
             env[a.kwarg.arg] = d
